@@ -180,6 +180,47 @@ CHECKS.update({
    ref="DESIGN.md §4 C20, §9"),
 })
 
+
+CHECKS.update({
+ "C08": dict(
+   text="Theorem (generic, any number of threads, every schedule): if every thread is pure prefix / ONE atomic block / pure suffix, "
+        "a completed run equals the sequential run of the blocks in commit order (results and final state) - so every method that "
+        "is a single lock-protected block is linearizable; and the formal counterpart of the check-then-act race (a two-block "
+        "removedir against a one-block writebytes has a schedule no sequential order explains; merged into one block it is "
+        "linearizable). Real code: real threads serialised by a baton, context switch possible before every line of library code "
+        "and at every lock operation (RLock proxies), all non-preemptive orders + every single preemption + sampled double/random "
+        "ones, for pairs of 25 call templates x path relations on MemoryFS, OSFS, MountFS, MultiFS, SubFS views; every outcome "
+        "must be produced by some sequential order on the same backend; deadlock/livelock/timeouts/foreign exceptions detected.",
+   note=TB + "The races of methods made of several blocks (removedir, writebytes, getinfo, copy, walks/glob, wrapper kinds whose "
+        "lock does not cover the wrapped filesystem) are genuine and recorded as known findings by class signature "
+        "(known_findings.json + harness/c08_known_local.json); races between the other single-block methods are violations. "
+        "That line granularity covers the GIL's switch points is an assumption.",
+   technique="Coq proof (atomic block => linearizable, all schedules) + line-granularity controlled-schedule exploration",
+   ref="DESIGN.md §4 C08, §9"),
+ "C15": dict(
+   text="Theorems on the member-name handling of the tar reader and the zip/tar writers: every name kept is a relative path of "
+        "clean components (no '..', not absolute), names whose resolution climbs above the root are dropped wherever they occur, "
+        "kept names originate from a member, the exception-faithful loop never fails, and names produced by the writers round-trip "
+        "unchanged. Real code: generated trees (unicode, empty dirs, empty and 1 MiB files) x {zip stored/deflated, tar, gz, bz2, "
+        "xz} x temp_fs x target x route, compared in both directions (paths, types, bytes, sizes, mtimes at the format's "
+        "resolution); crafted archives ('..', absolute, duplicate, implicit/conflicting entries) inside a canary directory with an "
+        "open() audit hook.",
+   note=TB + "Container formats are zipfile/tarfile's. ReadZipFS's directory building is not modelled (three crafted-zip deviations "
+        "and a time-zone inconsistency are recorded findings).",
+   technique="Coq proof on member-name handling + archive round-trip and crafted-archive differential",
+   ref="DESIGN.md §4 C15, §9"),
+ "C19": dict(
+   text="Theorems: _copy_is_necessary equals the documented condition for all five conditions and all existence/mtime cases "
+        "(incl. unknown times), newer/older exclusive, exists/not_exists complementary; the per-file loop of copy_dir_if copies "
+        "exactly the files satisfying the condition against the original destination, reports exactly those, and leaves every "
+        "other path unchanged; mirror's comparison settles. Real code: pairs of generated trees (disjoint/overlapping/"
+        "conflicting/empty) x 4 backend pairs x 4 walkers x mtime relations x 5 conditions x preserve_time; copy_fs/copy_dir/"
+        "*_if/mirror compared with an expectation computed from the documentation alone.",
+   note=TB + "mirror with a depth-limited walker is a recorded finding. Worker threads are C09's.",
+   technique="Coq proof of the condition table and copy loop + tree-pair differential",
+   ref="DESIGN.md §4 C19, §9"),
+})
+
 def main():
     checks = []
     for pid in sorted(CHECKS):
